@@ -213,7 +213,13 @@ func c08Locators(r *engine.Run) bool {
 	f2 := mkf("CDS", gts.Complemented{Location: gts.Joined{gts.Range(1, 3), gts.Range(5, 7), gts.Range(9, 12)}}, "b=y;a=xy")
 	f3 := mkf("gene", gts.Joined{gts.Range(3, 4), gts.Range(6, 8), gts.Complemented{Location: gts.Range(10, 12)}}, "b=x")
 	f4 := mkf("source", gts.Range(0, L), "a=x")
-	tables := [][]string{{}, {f1}, {f2}, {f4, f1, f2}, {f1, f3, f2}, {f3, f2, f1}}
+	// features that agree in 5' end, 3' end and spliced length but differ inside (or differ in exactly one of the three)
+	f5 := mkf("gene", gts.Joined{gts.Range(0, 4), gts.Range(8, 12)}, "a=x")
+	f6 := mkf("gene", gts.Joined{gts.Range(0, 2), gts.Range(6, 12)}, "a=x")
+	f7 := mkf("gene", gts.Joined{gts.Range(0, 4), gts.Range(9, 12)}, "a=x")
+	f8 := mkf("CDS", gts.Complemented{Location: gts.Joined{gts.Range(0, 4), gts.Range(8, 12)}}, "a=x")
+	f9 := mkf("CDS", gts.Complemented{Location: gts.Joined{gts.Range(0, 2), gts.Range(6, 12)}}, "a=x")
+	tables := [][]string{{}, {f1}, {f2}, {f4, f1, f2}, {f1, f3, f2}, {f3, f2, f1}, {f5, f6}, {f6, f5, f7}, {f8, f9}, {f5, f5, f8}, {f9, f6, f8, f5}}
 	xs := []string{"", "^", "$", "^..$", "^+2..$-3", "^-1..^+2", "$-3..$", "3", "14", "2..5", "<2..>5", "complement(2..5)", "complement(7)",
 		"gene", "CDS", "source", "gene/a=x", "/b", "/b=x", "CDS/a=^x", "misc", "/a=x/b"}
 	var mods []string
